@@ -61,6 +61,16 @@ def generate(ck):
             # heavy, gas-rich oils with a high bubble point: there the gas FVF falls below dBo/dRs and
             # the defining combination of the all-pressure compressibility is negative
             o = wl.oil_params(rng, min_pb=5000.0)
+        f32_first = False
+        if i % 10 == 3:
+            # a fluid whose parameters are exactly representable in single precision (200 F, 35 API,
+            # gravity 0.8125): the first call of the process for this fluid arrives from single-precision
+            # data, the judged double-precision calls come afterwards
+            for _ in range(50):
+                o3 = [float(rng.integers(80, 351)), float(rng.integers(12, 56)), float(rng.integers(36, 84)) / 64.0, float(rng.integers(20, 2501))]
+                if wl.bubblepoint(*o3) > 50:
+                    o, f32_first = o3, True
+                    break
         pb = wl.bubblepoint(*o)
         where = ["below", "at", "above", "below", "just-below", "just-above"][i % 6]
         if i % 8 == 7:
@@ -89,6 +99,7 @@ def generate(ck):
                 "Tpc": Tpc,
                 "ppc": ppc,
                 "threads": [wl.oil_params(rng) for _ in range(3)] if i % 80 == 13 else None,
+                "f32_first": f32_first,
             }
         )
     return descs
@@ -116,6 +127,16 @@ def run_case(ck, desc):
     pb = float(oil.pressure_bubblepoint_Standing(T, api, gg, gor))
     p = pb if desc["p"] is None else desc["p"]
     nonzero = 0
+    if desc.get("f32_first"):
+        f4 = np.float32
+        with np.errstate(all="ignore"):
+            for pp_ in (0.5 * pb, 0.9 * pb):
+                oil.dgor_dpressure_Standing(f4(T), f4(pp_), f4(api), f4(gg), f4(gor))
+                oil.oil_compressibility_Standing(f4(T), f4(pp_), f4(api), f4(gg), f4(gor), f4(desc["Tpc"]), f4(desc["ppc"]))
+                oil.db_o_dgor_Standing(f4(T), f4(api), f4(gg), f4(gor))
+                oil.solution_gor_Standing(f4(T), f4(pp_), f4(api), f4(gg), f4(gor))
+            water.b_water_McCain_dp(f4(round(desc["water_T"])), f4(desc["water_p"]))
+        ck.count("fluids_first_seen_in_single_precision")
     if desc.get("threads"):
         # the derivative functions and their parents from four threads at once, each with its own fluid
         sets = [desc["oil"]] + desc["threads"]
